@@ -114,6 +114,28 @@ def scalar_from_bytes(kind, b):
 
 
 def run(c):
+    # --replay <file>: the spaces are enumerated completely on every run, so replaying a recorded failing input is
+    # running the check and looking for the same key again
+    replay_key = None
+    if "--replay" in sys.argv:
+        with open(sys.argv[sys.argv.index("--replay") + 1]) as f:
+            replay_key = json.load(f).get("key")
+    seen_keys = []
+    orig_violation = c.violation
+
+    def violation(key, what, replay):
+        seen_keys.append(key)
+        return orig_violation(key, what, replay)
+    c.violation = violation
+    try:
+        _run(c)
+    finally:
+        if replay_key is not None:
+            c.log("REPLAY %s: %s" % (replay_key, "reproduced" if replay_key in seen_keys else "NOT reproduced (fixed or different tree)"))
+            c.cov["replay"] = {"key": replay_key, "reproduced": replay_key in seen_keys}
+
+
+def _run(c):
     d = build()
     work = tempfile.mkdtemp(prefix="c18.", dir=d)
     c.cov["trusted_base"] = ["Lean 4.33 kernel (decide +kernel over the generated tables)",
@@ -279,7 +301,7 @@ def run(c):
                 "and read through Python (integers once with the top bit set: signedness); embedded structs/arrays: address and size; "
                 "typed pointers: pointee class vs C pointee")
     field_cases = 0
-    samples = 0
+    sampled = set()
     scratchmem = ctypes.create_string_buffer(b"c18\0".ljust(16, b"\0") * 64, 16 * 64)
     for cname, cls in classes.items():
         if cname not in cm:
@@ -330,7 +352,15 @@ def run(c):
                                                    "py_offset": fld["off"], "c_size": ctot, "py_size": fld["size"]}))
 
             if fld["off"] != coff:
-                report("offset", "Python offset %d, C offset %d: writing %s.%s does not touch the bytes of %s" % (fld["off"], coff, cname, fname, m0["name"]))
+                # replay on the real object: write through Python, look at the bytes of the C member of that name
+                obs = ""
+                if pk[0] in ("int", "f64") and m0["size"] <= n - coff:
+                    val = 0x11 if pk[0] == "int" else 1.5
+                    setattr(obj, fname, val)
+                    landed = [mm["name"] for mm in cs["structs"][st]["members"] if any(buf[mm["off"]:mm["off"] + mm["size"]])]
+                    obs = "; replay: o = %s.from_buffer(bytearray(%d)); o.%s = %r -> bytes of struct %s.%s at offset %d are %s, the value landed in C member(s) %s" % (
+                        cname, n, fname, val, st, m0["name"], coff, raw(buf, coff, m0["size"]).hex(), landed)
+                report("offset", "Python offset %d, C offset %d: writing %s.%s does not touch the bytes of %s%s" % (fld["off"], coff, cname, fname, m0["name"], obs))
                 c.count(key)
                 continue
             if fld["size"] != ctot:
@@ -381,8 +411,8 @@ def run(c):
                         if not same:
                             why = "sign" if (ck[0] == "int" and leaf_py[0] == "int" and es == ck[2]) else "kind"
                             report(why, "bytes %s at C offset %d are %r in C (%s) but Python reads %r" % (b.hex(), eoff, cv, ck, gv))
-                        if samples < 4 and high:
-                            samples += 1
+                        if high and j == 0 and len(c.cov["samples"]) < 6 and cname not in sampled and fname not in ("t",):
+                            sampled.add(cname)
                             c.sample({"class": cname, "field": fname, "c_member": mj["name"], "c_offset": eoff, "bytes": b.hex(), "python_reads": gv, "c_value": cv})
             elif leaf_py[0] == "chr":
                 b = pattern(cname + fname, fld["size"] - 1, False)
@@ -491,6 +521,21 @@ def run(c):
                             {"dict": fam["dict"], "name": name, "candidates": cand})
                 continue
             en, ev = cand[0]
+            # the dictionary's own value for this name, stored through the attribute as an integer, must be seen by C as
+            # the enumerator of that name (also exercised when the named path is broken, e.g. a shadowed property)
+            sim2 = rebound.Simulation()
+            o2 = holder(sim2)
+            c.count(("optint", fam["dict"], fam["property"], name))
+            try:
+                setattr(o2, fam["property"], int(pyval))
+                got2 = cbytes(sim2, off, size)
+                if got2 != ev % (1 << (8 * size)):
+                    c.violation("option-dictvalue:%s:%s" % (fam["dict"], name),
+                                "%s[%r] = %d, stored through %s.%s, is seen by C as %d at %s.%s; %s = %d" % (fam["dict"], name, pyval, fam["class"], fam["property"], got2, fam["struct"], fam["member"], en, ev),
+                                {"python": "obj.%s = %s[%r]  # = %d" % (fam["property"], fam["dict"], name, pyval), "c_offset": off, "got": got2, "enumerator": en, "value": ev})
+            except Exception as e:
+                c.violation("option-int-raises:%s" % fam["dict"], "%s.%s = %d raises %s" % (fam["class"], fam["property"], pyval, e), {"value": pyval})
+            del sim2
             sim = rebound.Simulation()
             obj = holder(sim)
             before = cbytes(sim, off, size)
@@ -513,18 +558,7 @@ def run(c):
                 k = finding_key_for(c, "shadow", cls=fam["class"], field=fam["property"]) if fam["property"] in py["classes"][fam["class"]].get("shadowed", []) \
                     else "option-readback:%s:%s" % (fam["dict"], name)
                 c.violation(k, "%s reads back %r" % (what, back), {"python": what, "read_back": back})
-            # integer assignment of the C value
-            sim2 = rebound.Simulation()
-            o2 = holder(sim2)
-            try:
-                setattr(o2, fam["property"], int(ev))
-                c.count(("optint", fam["dict"], fam["property"], name))
-                if cbytes(sim2, off, size) != ev % (1 << (8 * size)):
-                    c.violation("option-int:%s:%s" % (fam["dict"], name), "%s.%s = %d is not stored at the C offset" % (fam["class"], fam["property"], ev), {"value": ev})
-            except Exception as e:
-                if fam["property"] not in py["classes"][fam["class"]].get("shadowed", []):
-                    c.violation("option-int-raises:%s" % fam["dict"], "%s.%s = %d raises %s" % (fam["class"], fam["property"], ev, e), {"value": ev})
-            del sim, sim2
+            del sim
         # every C enumerator poked at the C offset, read through Python
         rev = {}
         for name, pyval in items:
@@ -609,14 +643,14 @@ def run(c):
                             {"python": "type(rebound.%s.__dict__[%r])" % (cname, fname), "got": type(attr).__name__})
 
     # ================================================================ correspondence: model verdicts == executed observations
-    mb = {(s, f) for (s, f, w) in model_bad if f}
-    eb = {(s, f) for (s, f, w) in exec_bad if f}
-    if mb != eb:
-        c.corr_break("layout disagreements named by the model %s differ from those observed on the real objects %s" % (sorted(mb - eb), sorted(eb - mb)),
-                     {"model_only": sorted(mb - eb), "executed_only": sorted(eb - mb)})
-    if model_names != exec_names:
-        c.corr_break("name disagreements named by the model %s differ from those observed %s" % (sorted(model_names - exec_names), sorted(exec_names - model_names)),
-                     {"model_only": sorted(model_names - exec_names), "executed_only": sorted(exec_names - model_names)})
+    # (a field lying over a differently named member is a *name* disagreement for the executed sweep, which goes by
+    #  name, and may in addition be a *kind* disagreement for the model, which goes by position: compare the unions)
+    mflag = {(s, f) for (s, f, w) in model_bad if f} | model_names
+    eflag = {(s, f) for (s, f, w) in exec_bad if f} | exec_names
+    c.cov["disagreeing_fields"] = {"model": sorted("%s.%s" % x for x in mflag), "executed": sorted("%s.%s" % x for x in eflag)}
+    if mflag != eflag:
+        c.corr_break("fields the model flags %s differ from those observed on the real objects %s" % (sorted(mflag - eflag), sorted(eflag - mflag)),
+                     {"model_only": sorted(mflag - eflag), "executed_only": sorted(eflag - mflag)})
     # ================================================================ thorough: DWARF as an independent measurement of the C side
     if c.thorough:
         dw = ex.get("dwarf")
